@@ -43,7 +43,9 @@ class QueryInterp(TextInterp):
 
     def construct(self, cname, args, kwargs, node, frame):
         if cname == 'PathComponent':
-            return Obj('PathComponent', dict(zip(['separator', 'id', 'slice'], args)))
+            vals = dict(zip(['separator', 'id', 'slice'], args))
+            vals.update((k, v) for k, v in kwargs.items() if k in ('separator', 'id', 'slice'))
+            return Obj('PathComponent', vals)
         return TextInterp.construct(self, cname, args, kwargs, node, frame)
 
 
